@@ -49,6 +49,27 @@ mut("c05-commit-on-exception", ["C05", "C06", "C17"], "trie/utils/db.py",
     "        except Exception as exc:\n            for key, value in self.cache.items():\n                if value is not DELETED:\n                    self.wrapped_db[key] = value\n            raise exc\n",
     suite=True, note="buffer written to the wrapped db before the exception is re-raised")
 
+mut("c07-prefix-one-short", ["C07"], HX,
+    "                key,\n                traverse_exc.nibbles_traversed,\n",
+    "                key,\n                traverse_exc.nibbles_traversed[:-1],\n",
+    suite=True, note="MissingTrieNode.prefix one nibble short in get")
+mut("c07-complete-pruning-in-finally", ["C07"], HX,
+    "            yield\n            if self.is_pruning:\n                self._complete_pruning()\n        finally:\n",
+    "            yield\n        finally:\n            if self.is_pruning:\n                self._complete_pruning()\n",
+    suite=False, note="pruning applied although the operation failed")
+mut("c07-pending-prune-keys-not-reset", ["C07"], HX,
+    "        finally:\n            # Reset for next set/delete\n            self._pending_prune_keys = None",
+    "            self._pending_prune_keys = None\n        finally:\n            pass",
+    suite=None, note="after a failed call the pruning handle refuses the next one as 'simultaneous'")
+mut("c07-traversed-nibbles-off-by-one", ["C07"], HX,
+    "                used_key = trie_key[: len(trie_key) - len(remaining_key)]\n",
+    "                used_key = trie_key[: len(trie_key) - len(remaining_key) - 1]\n",
+    suite=False, note="nibbles_traversed one short in _traverse_from")
+mut("c07-root-missing-reported-as-keyerror", ["C07"], HX,
+    "        except KeyError:\n            raise MissingTraversalNode(root_hash, ())\n\n        return self._traverse_from(root_node, trie_key)",
+    "        except KeyError:\n            raise\n\n        return self._traverse_from(root_node, trie_key)",
+    suite=None, note="missing root leaks a bare KeyError from get/traverse")
+
 quiet("q-no-shortcircuit-delete-branch", ["C01", "C02", "C06"], HX,
       "        if encoded_sub_node == node[trie_key[0]]:\n            # If no change, (value already empty), short-circuit and skip any other work\n            return node\n\n        node[trie_key[0]] = encoded_sub_node",
       "        node[trie_key[0]] = encoded_sub_node",
